@@ -12,6 +12,7 @@ import Fir.Model.ProtoFit
 import Fir.Model.ProtoResize
 import Fir.Model.ProtoOracles
 import Fir.Model.ProtoCoeffs
+import Fir.Model.ProtoKernel
 open Fir
 
 def handleLine (line : String) : String :=
@@ -40,6 +41,7 @@ def handleLine (line : String) : String :=
     | "fit" => handleFit fs
     | "resize" => handleResizeChecked fs
     | "coeffs" => handleCoeffs fs
+    | "kernel" => handleKernel fs
     | "ping" => "OK pong"
     | _ => "BAD-REQUEST unknown command " ++ cmd
 
